@@ -1,6 +1,7 @@
 package rig
 
 import (
+	"strconv"
 	"pgregory.net/rapid"
 	"verif.local/vstat"
 )
@@ -23,6 +24,19 @@ func genSize(t *rapid.T, label string) int64 {
 
 var longGapsQuick int
 
+// GenPreamble: most carriers send token and ClientID as one message each; some cut the 16 bytes elsewhere.
+func GenPreamble(t *rapid.T) string {
+	switch rapid.IntRange(0, 7).Draw(t, "preamble") {
+	case 0:
+		return "coalesced"
+	case 1:
+		return "split:" + strconv.Itoa(rapid.IntRange(1, 15).Draw(t, "preamblecut"))
+	case 2:
+		return "bytewise"
+	}
+	return ""
+}
+
 func GenCarrier(t *rapid.T, maxBytes int64) Carrier {
 	c := Carrier{}
 	c.Mode = rapid.SampledFrom([]string{"reset", "close", "close", "freeze"}).Draw(t, "mode")
@@ -40,6 +54,7 @@ func GenCarrier(t *rapid.T, maxBytes int64) Carrier {
 		longGapsQuick++
 	}
 	c.DialFailures = rapid.SampledFrom([]int{0, 0, 0, 1, 3}).Draw(t, "dialfail")
+	c.Preamble = GenPreamble(t)
 	pos := func(label string) int64 {
 		switch rapid.IntRange(0, 5).Draw(t, label+"class") {
 		case 0:
@@ -94,7 +109,7 @@ func GenSession(t *rapid.T, label uint64, maxFaults int) Session {
 	for i := 0; i < nf; i++ {
 		s.Carriers = append(s.Carriers, GenCarrier(t, max))
 	}
-	s.Carriers = append(s.Carriers, Carrier{}) // the healthy one
+	s.Carriers = append(s.Carriers, Carrier{Preamble: GenPreamble(t)}) // the healthy one
 	return s
 }
 
